@@ -400,3 +400,41 @@ func GosymH_C10_extract() {
 	}
 	gosym_Reach("done")
 }
+
+// GosymH_C10_mutate: a valid two-block, two-file manifest in which one token (stream name, a locator, or a file
+// token) is replaced by up to `maxlen` arbitrary bytes (any byte, including space, newline, colon, plus,
+// backslash, NUL and non-ASCII).  Whatever the bytes are, no entry point of the package panics or hangs, and
+// when Extract reports an error it returns no manifest text.
+func GosymH_C10_mutate() {
+	toks := []string{".", gosymHashes[0] + "+3", gosymHashes[1] + "+2", "0:3:f", "3:2:g"}
+	which := gosym_Choice("token", len(toks))
+	n := gosym_Choice("len", gosym_Param("maxlen", 3)+1)
+	toks[which] = gosym_String("bytes", n, "any")
+	if gosym_Fork("keep-prefix-of-original") {
+		// mutation inside a token: original prefix + arbitrary bytes
+		orig := []string{"./d", gosymHashes[0] + "+", gosymHashes[1] + "+2+A", "0:", "3:2:"}
+		toks[which] = orig[which] + toks[which]
+	}
+	m := Manifest{Text: strings.Join(toks, " ") + "\n"}
+	nerr := 0
+	for st := range m.StreamIter() {
+		if st.Err != nil {
+			nerr++
+		}
+	}
+	for range m.FileSegmentIterByName("f") {
+	}
+	for range m.FileSegmentIterByName("./g") {
+	}
+	for range m.BlockIterWithDuplicates() {
+	}
+	out := m.Extract(".", ".")
+	if out.Err != nil {
+		gosym_Assert(out.Text == "", "rejected-manifest-is-not-partially-extracted")
+		gosym_Reach("rejected")
+	} else {
+		gosym_Assert(nerr == 0, "extract-succeeds-only-if-every-stream-parsed")
+		gosym_Reach("accepted")
+	}
+	gosym_Reach("done")
+}
